@@ -243,7 +243,7 @@ Den(t) ==
     [] t.k = "hwp" -> HwpMat(t.s.k, LeafSize(Leaves(t.s)[1]))
     [] t.k = "pol" -> PolMat(t.s.k, LeafSize(Leaves(t.s)[1]))
     [] t.k \in {"T", "RT", "rotT"} -> MatT(Den(t.ch[1]))
-    [] t.k = "inv" -> MatInv(Den(t.ch[1]))
+    [] t.k = "inv" -> MatInvO(Den(t.ch[1]))
     [] t.k = "comp" -> MatProd([i \in 1..Len(t.ch) |-> Den(t.ch[i])])
     [] t.k = "add" -> MatSum([i \in 1..Len(t.ch) |-> Den(t.ch[i])])
     [] t.k = "brow" -> HStack([i \in 1..Len(t.ch) |-> Den(t.ch[i])])
